@@ -88,6 +88,10 @@ def run(ck, tier, seed):
             # its routes is never run; the HTTP comparison below covers what a client can see
             vmo = None
             ck.cov["served_by_interpreter_fallback"] = ck.cov.get("served_by_interpreter_fallback", 0) + 1
+        elif any(x["e"] == "callh" for x in langrun.all_exprs(p)):
+            # a route calling a built-in only the interpreter has (append, map, sort ...) is served by the interpreter too
+            vmo = None
+            ck.cov["served_by_interpreter_fallback"] = ck.cov.get("served_by_interpreter_fallback", 0) + 1
         if vmo and vmo.get("kind") == "compile-error":
             if "redeclare" in vmo.get("msg", "") and langrun.static_redeclare(p):
                 continue      # rejected by both modes' front end: outside the domain
